@@ -689,13 +689,30 @@ fn remove_tuples_from_statement(stmt: Statement) -> Result<Statement, Box<Report
                     }
                     LogArgument::LogExp(exp) => {
                         let mut sep_args = separate_tuple_for_log_call(vec![exp]);
+                        // Tuples are only allowed as (possibly nested) arguments, not inside other expressions.
+                        for sep_arg in &sep_args {
+                            if let LogArgument::LogExp(exp) = sep_arg {
+                                if exp.contains_tuple(None) {
+                                    return Err(TupleError::boxed_report(
+                                        &meta,
+                                        "Tuples cannot be used inside expressions passed to `log`.",
+                                    ));
+                                }
+                            }
+                        }
                         new_args.append(&mut sep_args);
                     }
                 }
             }
             Ok(build_log_call(meta, new_args))
         }
-        Statement::Assert { meta, arg } => Ok(build_assert(meta, arg)),
+        Statement::Assert { meta, arg } => {
+            if arg.contains_tuple(None) {
+                Err(TupleError::boxed_report(&meta, "Tuples cannot be used in assertions."))
+            } else {
+                Ok(build_assert(meta, arg))
+            }
+        }
         Statement::Return { meta, value } => {
             if value.contains_tuple(None) {
                 Err(TupleError::boxed_report(&meta, "Tuple cannot be used in return values."))
